@@ -1126,3 +1126,112 @@ func (g *G) tparts(depth, n int) []TPart {
 	}
 	return ps
 }
+
+// Children returns the direct sub-expressions of n (all positions).
+func (n *Node) Children() []*Node {
+	if n == nil {
+		return nil
+	}
+	var out []*Node
+	add := func(m *Node) {
+		if m != nil {
+			out = append(out, m)
+		}
+	}
+	for _, k := range n.Kids {
+		add(k)
+	}
+	for _, k := range n.Keys {
+		add(k.Expr)
+	}
+	for _, s := range n.Tail {
+		add(s.Index)
+	}
+	add(n.Coll)
+	add(n.KeyE)
+	add(n.ValE)
+	add(n.Cond)
+	var rp func(ps []TPart)
+	rp = func(ps []TPart) {
+		for _, p := range ps {
+			add(p.Expr)
+			rp(p.Then)
+			rp(p.Else)
+		}
+	}
+	rp(n.Parts)
+	return out
+}
+
+// Uses reports whether the AST refers to a variable with the given root name
+// (bound iterator names are not distinguished: conservative).
+func (n *Node) Uses(name string) bool {
+	found := false
+	n.Walk(func(m *Node) {
+		if m.Kind == KVar && m.Name == name {
+			found = true
+		}
+	})
+	return found
+}
+
+// Shrink greedily replaces the AST by one of its sub-expressions as long as
+// the predicate keeps holding; it returns the smallest AST found.
+func Shrink(n *Node, still func(*Node) bool) *Node {
+	cur := n
+	for steps := 0; steps < 64; steps++ {
+		progressed := false
+		for _, ch := range cur.Children() {
+			if still(ch) {
+				cur = ch
+				progressed = true
+				break
+			}
+		}
+		if !progressed {
+			break
+		}
+	}
+	return cur
+}
+
+// Shape is a short structural signature of an AST: the root kind and the
+// kinds of its direct children, used to class witnesses.
+func (n *Node) Shape() string {
+	s := n.Kind.String()
+	if n.Kind == KBinary || n.Kind == KUnary {
+		s += n.Op
+	}
+	if n.Kind == KSplat {
+		if n.Full {
+			s += "[*]"
+		} else {
+			s += ".*"
+		}
+	}
+	if n.Kind == KCall {
+		s += ":" + n.Name
+	}
+	var ks []string
+	for _, c := range n.Children() {
+		ks = append(ks, c.Kind.String())
+	}
+	if len(ks) > 6 {
+		ks = ks[:6]
+	}
+	if len(ks) > 0 {
+		s += "(" + joinStr(ks, ",") + ")"
+	}
+	return s
+}
+
+func joinStr(xs []string, sep string) string {
+	out := ""
+	for i, x := range xs {
+		if i > 0 {
+			out += sep
+		}
+		out += x
+	}
+	return out
+}
